@@ -420,6 +420,17 @@ def program_case(draw, kinds, max_steps=4, world_kwargs=None, min_steps=1):
             prev = steps[-1]["targets"][0]
             if info.kind[prev] == info.kind[s_["targets"][0]]:
                 s_ = dict(s_, targets=[prev], entry=steps[-1]["entry"] if draw(st.booleans()) else "state")
+        if s_["k"] == "op" and draw(st.integers(0, 3)) == 0:
+            # users keep Operation objects and apply them again: same description as an earlier step, same object
+            kinds_ = [info.kind[t] for t in s_["targets"]]
+            earlier = [e for e in steps if e["k"] == "op" and [info.kind[t] for t in e["targets"]] == kinds_]
+            if earlier:
+                e = draw(st.sampled_from(earlier))
+                s_ = dict(s_, op=e["op"], reuse=True)
+                if len(e["targets"]) > 1 and draw(st.booleans()):
+                    # ... on the same operands in another order
+                    s_["targets"] = list(draw(st.permutations(e["targets"])))
+                    s_["entry"] = e["entry"]
         steps.append(s_)
     return dict(spec=spec, layout=layout, contraction=draw(st.booleans()), steps=steps)
 
@@ -516,3 +527,68 @@ def lifecycle_case(draw, tail_kinds=("op", "kraus", "measure", "struct", "trace_
     for _ in range(draw(st.integers(0, max_tail))):
         steps.append(draw(step(info, list(tail_kinds), [f, p_])))
     return dict(spec=spec, layout=layout, contraction=draw(st.booleans()), steps=steps, family="lifecycle")
+
+
+# ----------------------------------------------------------------------------------------
+# "survivor" programs: a composite product space of 3-5 members loses some of them (measurement,
+# destructive POVM) and the members that stay are used straight afterwards. Defects in what a
+# reducing call leaves behind (positions, dimensions, flags) only show in the follow-up call.
+# ----------------------------------------------------------------------------------------
+@st.composite
+def survivor_case(draw, touches=("resize", "fockop", "op", "measure", "kraus", "trace_out", "reorder", "povm"), max_touch=3, finals=()):
+    n_env = draw(st.integers(2, 3))
+    envs = []
+    same = draw(st.sampled_from([0, 0, 2, 3]))   # equal dimensions everywhere: a call acting on the wrong axis still fits
+    for _ in range(n_env):
+        fd = same or draw(st.sampled_from([2, 3, 4]))
+        envs.append(dict(fdim=fd, fock=draw(st.integers(0, fd - 1)), pol=draw(st.sampled_from(["H", "V", "R", "L"]))))
+    customs = [dict(dim=same or draw(st.sampled_from([2, 3])), label=0) for _ in range(draw(st.integers(0, 2)))]
+    units = [f"e{i}" for i in range(n_env)] + [f"c{i}" for i in range(len(customs))]
+    spec = dict(envs=envs, customs=customs, ces=[units])
+    all_subs = [f"e{i}.{x}" for i in range(n_env) for x in "fp"] + [f"c{i}" for i in range(len(customs))]
+    k = draw(st.integers(3, min(5, len(all_subs))))
+    members = list(draw(st.permutations(all_subs))[:k])
+    layout = [dict(members=members, via="ce0", level=draw(st.sampled_from([1, 2])),
+                   state=dict(cls=draw(st.sampled_from(["pure", "mixed", "product", "basis", "lowphoton"])), seed=draw(seeds)))]
+    info = Info(spec, layout)
+    steps = []
+    # the reducing call: mostly on a member stored in front of others
+    nred = draw(st.integers(1, 2))
+    for _ in range(nred):
+        t = members[0] if draw(st.booleans()) else draw(st.sampled_from(members[:-1]))
+        how = draw(st.sampled_from(["measure", "measure", "measure", "povm"]))
+        if how == "measure":
+            steps.append(dict(k="measure", entry=draw(st.sampled_from(["ce0", "ce0", "state"])), targets=[t], sep=draw(st.sampled_from([True, True, False])),
+                              destructive=draw(st.booleans()), script=draw(st.lists(st.integers(0, 5), max_size=3))))
+        else:
+            steps.append(dict(k="povm", entry=draw(st.sampled_from(["ce0", "state"])), targets=[t], pseed=draw(seeds), nops=2, projective=draw(st.booleans()),
+                              destructive=draw(st.booleans()), partial=draw(st.booleans()), unsharp=None, script=draw(st.lists(st.integers(0, 5), max_size=2))))
+    ntouch = draw(st.integers(1, max_touch))
+    plan = [draw(st.sampled_from(list(touches))) for _ in range(ntouch)] + [draw(st.sampled_from(list(finals))) for _ in range(draw(st.integers(1, 2)) if finals else 0)]
+    for how in plan:
+        t = draw(st.sampled_from(members[1:] * 2 + all_subs))
+        if how in ("resize", "fockop"):
+            focks = [m for m in members[1:] if info.kind[m] == "fock"] or [s_ for s_ in all_subs if info.kind[s_] == "fock"]
+            t = draw(st.sampled_from(focks))
+            if how == "resize":
+                steps.append(dict(k="resize", entry=draw(st.sampled_from(["state", "ce0", "ce0"])), target=t, n=draw(st.integers(1, 7))))
+            else:
+                steps.append(dict(k="op", entry=draw(st.sampled_from(["state", "ce0"])), targets=[t], op=draw(fock_op(allow_big=False))))
+        elif how == "op":
+            steps.append(dict(k="op", entry=draw(st.sampled_from(["state", "ce0"])), targets=[t], op=draw(op_for_kind(info.kind[t], allow_big=False))))
+        elif how == "measure":
+            steps.append(dict(k="measure", entry=draw(st.sampled_from(["state", "ce0"])), targets=[t], sep=draw(st.booleans()), destructive=draw(st.booleans()),
+                              script=draw(st.lists(st.integers(0, 5), max_size=3))))
+        elif how == "kraus":
+            steps.append(dict(k="kraus", entry=draw(st.sampled_from(["state", "ce0"])), targets=[t], kseed=draw(seeds), nops=draw(st.integers(1, 3)), unitary=False))
+        elif how == "trace_out":
+            n = draw(st.integers(1, 2))
+            ts = list(dict.fromkeys(draw(st.permutations(members))))[:n]
+            steps.append(dict(k="trace_out", entry="ce0", targets=ts))
+        elif how == "povm":
+            steps.append(dict(k="povm", entry=draw(st.sampled_from(["ce0", "state"])), targets=[t], pseed=draw(seeds), nops=2, projective=draw(st.booleans()),
+                              destructive=draw(st.booleans()), partial=draw(st.booleans()), unsharp=None, script=draw(st.lists(st.integers(0, 5), max_size=2))))
+        else:
+            n = draw(st.integers(1, len(members)))
+            steps.append(dict(k="struct", call=draw(st.sampled_from(["ce_reorder", "ce_combine"])), ce="ce0", members=list(draw(st.permutations(members))[:n])))
+    return dict(spec=spec, layout=layout, contraction=draw(st.booleans()), steps=steps, family="survivor")
